@@ -10,7 +10,13 @@ if not pids:
 st = subprocess.run(["git", "-C", "/repo", "status", "--porcelain"], capture_output=True, text=True).stdout.strip()
 if st:
     sys.exit("refusing: /repo has uncommitted changes:\n" + st)
-subprocess.check_call(["git", "-C", "/repo", "apply", patch])
+if subprocess.run(["git", "-C", "/repo", "apply", patch], capture_output=True).returncode != 0:
+    if subprocess.run(["git", "-C", "/repo", "apply", "-C1", patch], capture_output=True).returncode != 0:
+        r = subprocess.run(["patch", "-p1", "-F3", "-s", "-i", patch], cwd="/repo", capture_output=True, text=True)
+        if r.returncode != 0:
+            subprocess.check_call(["git", "-C", "/repo", "checkout", "--", "."])
+            subprocess.run(["git", "-C", "/repo", "clean", "-fdq"])
+            sys.exit("patch does not apply: " + r.stdout[-300:] + r.stderr[-300:])
 fired = {}
 try:
     for pid in pids:
